@@ -1,6 +1,7 @@
 BASELINE_OFF = "cd /repo && go test -mod=mod -json -vet=off -count=1 -timeout 25m ./..."
 HOOK_COMMITS = []
 NOTES = ("The checks of C06, C10-C17 and C19 also hold the lock-discipline obligation: every function under bus/ that touches a mutex is translated (harness/cmd/extract/locks.go) into a control skeleton, and Tie/Locks.lean shows by evaluation of a checker proved sound (Props/Locks.lean safe_sound, acts_sound) that none returns with a mutex held, locks one it holds, or — endPoint.dispatch apart — sends or waits under one. "
+         "They also hold the lock-order obligation: the same functions and what they may call are translated with mutexes numbered for the whole of bus/ and calls resolved (harness/cmd/extract/lockorder.go); Tie/LockOrder.lean checks that the relation 'asked for while held', directly or through any chain of calls, has a rank under which every edge goes upwards, and Props/LockOrder.lean (evs_sound, asks_edges, ranked_no_deadlock) proves that goroutines waiting for mutexes along such chains are never deadlocked. "
          "Every check: regenerate facts from /repo, lake build theorems+ties, audit axioms, run real code vs Lean model "
          "driver on generated ops, compare. See DESIGN.md.")
 NOT_APPLICABLE = {}
